@@ -188,7 +188,9 @@ func runTask(bin string, t *task, work string) {
 	if j.EnvOnly {
 		args = append(args, "-envonly")
 	}
-	cmd := exec.Command(bin, args...)
+	// address-space cap: a defect that makes the code under test allocate without bound must not take the sandbox down
+	shArgs := []string{"-c", "ulimit -v 25000000 2>/dev/null; exec \"$0\" \"$@\"", bin}
+	cmd := exec.Command("sh", append(shArgs, args...)...)
 	cmd.Dir = work
 	cmd.Env = append(env(), "GORACE=halt_on_error=0 log_path="+filepath.Join(work, "race"))
 	var out, errb bytes.Buffer
